@@ -8,6 +8,9 @@
 //       cb bus 0|1                 SetMsgHandler(0 / callback)
 //       msg bus pgn                one single-frame CAN message of that PGN + ParseMessages()
 //       tp bus pgn                 broadcast transport-protocol transfer (TP.CM BAM + 2 TP.DT) carrying pgn + ParseMessages()
+//       fp bus pgn src len b0,b1,.. flags   fast-packet frames with first bytes b0,b1,... (sequence id * 32 + frame counter) from
+//                                  source src, first frames announce len bytes; ParseMessages() after every frame; flags = one
+//                                  0/1 per frame: whether a strict in-order receiver has a complete message after that frame
 //       probe p1 p2 ...            = msg 0 p1, msg 1 p1, msg 0 p2, ... reported on one line
 // output of msg/tp:  "cb=<times the plain callback ran> h=<ids in call order|->"
 #include "node.h"
@@ -18,22 +21,22 @@ static const int MAXH = 8, NBUS = 2;
 static const unsigned long TP_CM_PGN = 60416UL, TP_DT_PGN = 60160UL;
 
 // ---- the call log (what the real code did) ------------------------------------------------------
-struct Call { int h; unsigned long pgn; };
+struct Call { int h; unsigned long pgn; unsigned src; };
 static std::vector<Call> calls;
-static int cbRuns[NBUS]; static unsigned long cbPgn[NBUS];
-static void cb0(const tN2kMsg &m) { cbRuns[0]++; cbPgn[0] = m.PGN; }
-static void cb1(const tN2kMsg &m) { cbRuns[1]++; cbPgn[1] = m.PGN; }
+static int cbRuns[NBUS]; static unsigned long cbPgn[NBUS]; static unsigned cbSrc[NBUS];
+static void cb0(const tN2kMsg &m) { cbRuns[0]++; cbPgn[0] = m.PGN; cbSrc[0] = m.Source; }
+static void cb1(const tN2kMsg &m) { cbRuns[1]++; cbPgn[1] = m.PGN; cbSrc[1] = m.Source; }
 
 // several unrelated subclasses of the library's handler class
 struct HA : public tNMEA2000::tMsgHandler {
   int id;
   HA(int i, unsigned long p, tNMEA2000 *n) : tNMEA2000::tMsgHandler(p, n), id(i) {}
-  void HandleMsg(const tN2kMsg &m) override { calls.push_back({id, m.PGN}); }
+  void HandleMsg(const tN2kMsg &m) override { calls.push_back({id, m.PGN, m.Source}); }
 };
 struct HB : public tNMEA2000::tMsgHandler {
   char pad[24]; int id;
   HB(int i, unsigned long p, tNMEA2000 *n) : tNMEA2000::tMsgHandler(p, n), id(i) { memset(pad, 0x5a, sizeof pad); }
-  void HandleMsg(const tN2kMsg &m) override { calls.push_back({id, m.PGN}); }
+  void HandleMsg(const tN2kMsg &m) override { calls.push_back({id, m.PGN, m.Source}); }
 };
 struct HC : public HA {
   std::vector<int> seen;
@@ -44,6 +47,7 @@ struct HC : public HA {
 struct Bus : public MockN2k {
   bool listEmpty() const { return MsgHandlers == 0; }
   void forceEmpty() { MsgHandlers = 0; }
+  void dropPartialMessages() { for (int i = 0; i < MaxN2kCANMsgs; i++) N2kCANMsgBuf[i].FreeMessage(); }   // cases are self-contained
 };
 static Bus *bus[NBUS];
 static tNMEA2000::tMsgHandler *H[MAXH];
@@ -74,7 +78,7 @@ static bool isFastPacketPgn(unsigned long pgn) {   // the PGNs used here that th
 }
 
 // queue one complete single-frame message (or a lone TP frame) of the given PGN
-static void inject(Bus &b, unsigned long pgn) {
+static unsigned inject(Bus &b, unsigned long pgn) {
   unsigned char d[8]; unsigned char len = 8; unsigned src = 0x23;
   memset(d, 0xff, 8);
   if (pgn == 59904UL) { d[0] = 0x00; d[1] = 0xEE; d[2] = 0x00; len = 3; }                       // ISO request for 60928
@@ -84,6 +88,7 @@ static void inject(Bus &b, unsigned long pgn) {
   else if (isFastPacketPgn(pgn)) { d[0] = 0x40; d[1] = 4; d[2] = 1; d[3] = 2; d[4] = 3; d[5] = 4; } // whole fast packet in its first frame
   else { for (int i = 0; i < 8; i++) d[i] = (unsigned char)(i + 1); }
   b.rx(canId(6, pgn, src, 255), len, d);
+  return src;
 }
 static void injectTp(Bus &b, unsigned long pgn) {
   unsigned char d[8] = {32, 9, 0, 2, 0xff, (unsigned char)(pgn & 0xff), (unsigned char)((pgn >> 8) & 0xff), (unsigned char)((pgn >> 16) & 0xff)};
@@ -96,38 +101,67 @@ static void injectTp(Bus &b, unsigned long pgn) {
 static const char *pgnClass(unsigned long h) { return h == 0 ? "all-pgn-handler" : "pgn-handler"; }
 
 // run the receive path for what was queued on bus b and compare with the reference; `want` = PGN of the message that
-// must be delivered, or -1 when nothing may be delivered (lone transport-protocol frames)
-static std::string deliver(int b, long want) {
+// must be delivered (from source wantSrc), or -1 when no message was completed by the frames queued (lone
+// transport-protocol frames, fast-packet fragments, frames of a damaged fast packet); `cls` names the frame class
+struct Res { int cb = 0; std::vector<int> ids; };
+static std::string fmt(const Res &r) {
+  std::string out = "cb=" + std::to_string(r.cb) + " h=";
+  if (r.ids.empty()) out += "-";
+  for (size_t i = 0; i < r.ids.size(); i++) { if (i) out += ','; out += std::to_string(r.ids[i]); }
+  return out;
+}
+static void deliverInto(Res &res, int b, long want, unsigned wantSrc, const char *cls) {
   calls.clear(); cbRuns[0] = cbRuns[1] = 0;
   g_now++;
   bus[b]->ParseMessages();
   bus[b]->sent.clear();
-  std::string out = "cb=" + std::to_string(cbRuns[0] + cbRuns[1]) + " h=";
-  if (calls.empty()) out += "-";
-  for (size_t i = 0; i < calls.size(); i++) { if (i) out += ','; out += std::to_string(calls[i].h); }
+  res.cb += cbRuns[0] + cbRuns[1];
+  for (auto &c : calls) res.ids.push_back(c.h);
   // ---- oracle
+  std::string none = std::string("no-message-completed:") + cls;
   int n[MAXH]; memset(n, 0, sizeof n);
   for (auto &c : calls) {
     if (c.h < 0 || c.h >= MAXH) { C.fail("harness:bad-id", "id %d", c.h); continue; }
     n[c.h]++;
-    if (want >= 0 && c.pgn != (unsigned long)want) C.fail("C14:wrong-message", "handler %d got PGN %lu, message was %ld", c.h, c.pgn, want);
+    if (want >= 0 && (c.pgn != (unsigned long)want || c.src != wantSrc))
+      C.fail(std::string("C14:wrong-message:") + cls, "handler %d got PGN %lu from %u, the completed message was %ld from %u", c.h, c.pgn, c.src, want, wantSrc);
   }
   for (int h = 0; h < MAXH; h++) {
     bool match = want >= 0 && ref[h].live && ref[h].bus == b && (ref[h].pgn == 0 || ref[h].pgn == (unsigned long)want);
     if (match && n[h] == 0) C.fail(std::string("C14:missed:") + pgnClass(ref[h].pgn), "handler %d (PGN %lu) on bus %d not called for %ld", h, ref[h].pgn, b, want);
     if (match && n[h] > 1) C.fail(std::string("C14:duplicate:") + pgnClass(ref[h].pgn), "handler %d called %d times for %ld", h, n[h], want);
     if (!match && n[h] > 0) {
-      const char *why = want < 0 ? "transport-frame" : !ref[h].live ? "destroyed" : ref[h].bus < 0 ? "detached" : ref[h].bus != b ? "other-bus" : "other-pgn";
-      C.fail(std::string("C14:extra:") + why, "handler %d (PGN %lu, bus %d) called %d times for %ld on bus %d", h, ref[h].pgn, ref[h].bus, n[h], want, b);
+      std::string why = want < 0 ? none : !ref[h].live ? "destroyed" : ref[h].bus < 0 ? "detached" : ref[h].bus != b ? "other-bus" : "other-pgn";
+      unsigned long gp = 0; unsigned gs = 0; for (auto &c : calls) if (c.h == h) { gp = c.pgn; gs = c.src; }
+      C.fail("C14:extra:" + why, "handler %d (PGN %lu, bus %d) called %d times with PGN %lu from %u; completed message: %ld, bus %d", h, ref[h].pgn, ref[h].bus, n[h], gp, gs, want, b);
     }
     if (match) caseHit = true;
   }
   int wantCb = (want >= 0 && refCb[b]) ? 1 : 0;
-  if (cbRuns[b] != wantCb) C.fail(want < 0 ? "C14:callback:transport-frame" : cbRuns[b] < wantCb ? "C14:callback:missed" : "C14:callback:extra",
-                                 "plain callback of bus %d ran %d times, expected %d", b, cbRuns[b], wantCb);
-  else if (wantCb && cbPgn[b] != (unsigned long)want) C.fail("C14:wrong-message", "callback got PGN %lu, message was %ld", cbPgn[b], want);
+  if (cbRuns[b] != wantCb) C.fail(want < 0 ? "C14:callback:" + none : cbRuns[b] < wantCb ? std::string("C14:callback:missed") : std::string("C14:callback:extra"),
+                                 "plain callback of bus %d ran %d times (last PGN %lu from %u), expected %d", b, cbRuns[b], cbPgn[b], cbSrc[b], wantCb);
+  else if (wantCb && (cbPgn[b] != (unsigned long)want || cbSrc[b] != wantSrc))
+    C.fail(std::string("C14:wrong-message:") + cls, "callback got PGN %lu from %u, the completed message was %ld from %u", cbPgn[b], cbSrc[b], want, wantSrc);
   if (cbRuns[1 - b] != 0) C.fail("C14:callback:other-bus", "plain callback of bus %d ran for a message on bus %d", 1 - b, b);
-  return out;
+}
+static std::string deliver(int b, long want, unsigned wantSrc, const char *cls) { Res r; deliverInto(r, b, want, wantSrc, cls); return fmt(r); }
+
+// ---- fast-packet reference receiver, from the format: a message is completely received when its first frame
+// (counter 0, announcing the length) was followed, frame by frame, by the frames with the next first bytes until
+// the announced number of bytes has arrived; any other continuation frame ends the reception without a message
+struct FpRx { bool active = false; unsigned last = 0; unsigned got = 0, len = 0; };
+static std::map<std::tuple<int, unsigned long, unsigned>, FpRx> fpState;
+static bool fpRefFrame(FpRx &st, unsigned b0, unsigned len) {
+  if ((b0 & 0x1f) == 0) { st.active = true; st.last = b0; st.len = len; st.got = 6; }
+  else if (st.active && b0 == st.last + 1) { st.last = b0; st.got += 7; }
+  else { st.active = false; return false; }
+  if (st.got >= st.len) { st.active = false; return true; }
+  return false;
+}
+static std::string fpFlags(int b, unsigned long pgn, unsigned src, unsigned len, const std::vector<unsigned> &fr) {
+  FpRx st = fpState[std::make_tuple(b, pgn, src)];   // copy: the generator only predicts
+  std::string f; for (unsigned b0 : fr) f += fpRefFrame(st, b0, len) ? '1' : '0';
+  return f;
 }
 
 static tNMEA2000::tMsgHandler *mk(int h, unsigned long p, tNMEA2000 *n) {
@@ -148,8 +182,9 @@ static void exec(const std::string &line) {
   if (w[0] == "reset" && w.size() <= 1 + (size_t)MAXH) {
     for (size_t i = 1; i < w.size(); i++) if (!isNum(i)) { C.out("bad-op"); return; }
     for (int h = 0; h < MAXH; h++) { if (H[h]) { delete H[h]; H[h] = nullptr; } ref[h] = RefH(); }
+    fpState.clear();
     for (int b = 0; b < NBUS; b++) {
-      bus[b]->SetMsgHandler(0); refCb[b] = false;
+      bus[b]->SetMsgHandler(0); refCb[b] = false; bus[b]->dropPartialMessages();
       if (!bus[b]->listEmpty()) { C.fail("C14:dangling-after-destroy-all", "bus %d still points to a handler after every handler was destroyed", b); bus[b]->forceEmpty(); }
     }
     for (size_t i = 1; i < w.size(); i++) { int h = (int)i - 1; H[h] = mk(h, num(i), nullptr); ref[h].live = true; ref[h].pgn = num(i); ref[h].bus = -1; }
@@ -197,13 +232,35 @@ static void exec(const std::string &line) {
     if (w[0] == "tp") {
       if (p == TP_CM_PGN || p == TP_DT_PGN) { C.out("bad-op"); return; }
       injectTp(*bus[b], p); C.count("tp_transfers");
-      C.outs(deliver(b, (long)p)); return;
+      C.outs(deliver(b, (long)p, 0x31, "tp-transfer")); return;
     }
     bool lone = p == TP_CM_PGN || p == TP_DT_PGN;
     if (lone) C.count("lone_tp_frames");
     else if (p == 59904UL || p == 60928UL || p == 59392UL || p == 126208UL) C.count("system_messages");
-    inject(*bus[b], p);
-    C.outs(deliver(b, lone ? -1 : (long)p)); return;
+    unsigned src = inject(*bus[b], p);
+    C.outs(deliver(b, lone ? -1 : (long)p, src, lone ? "lone-tp-frame" : "single-frame")); return;
+  }
+  if (w[0] == "fp" && w.size() == 7) {
+    int b = bid(1);
+    std::vector<unsigned> fr; bool okList = !w[5].empty();
+    { size_t i = 0; while (okList && i <= w[5].size()) { size_t j = w[5].find(',', i); if (j == std::string::npos) j = w[5].size();
+        std::string t = w[5].substr(i, j - i); if (t.empty() || t.size() > 3 || t.find_first_not_of("0123456789") != std::string::npos || atoi(t.c_str()) > 255) okList = false; else fr.push_back((unsigned)atoi(t.c_str())); i = j + 1; } }
+    if (b < 0 || !isNum(2) || num(2) >= (1UL << 17) || !isFastPacketPgn(num(2)) || !isNum(3) || num(3) > 251 || !isNum(4) || num(4) > 223 ||
+        !okList || fr.size() > 40 || w[6].size() != fr.size() || w[6].find_first_not_of("01") != std::string::npos) { C.out("bad-op"); return; }
+    unsigned long p = num(2); unsigned src = (unsigned)num(3), len = (unsigned)num(4);
+    FpRx &st = fpState[std::make_tuple(b, p, src)];
+    Res res; int done = 0;
+    for (size_t k = 0; k < fr.size(); k++) {
+      unsigned char d[8]; d[0] = (unsigned char)fr[k];
+      if ((fr[k] & 0x1f) == 0) { d[1] = (unsigned char)len; for (int j = 2; j < 8; j++) d[j] = (unsigned char)(j + k); }
+      else for (int j = 1; j < 8; j++) d[j] = (unsigned char)(16 * k + j);
+      bus[b]->rx(canId(6, p, src, 255), 8, d);
+      bool complete = fpRefFrame(st, fr[k], len);
+      if (complete) done++;
+      deliverInto(res, b, complete ? (long)p : -1, src, (fr[k] & 0x1f) == 0 ? "fp-first-frame" : "fp-continuation");
+    }
+    C.count("fp_frames", (long)fr.size()); C.count("fp_messages_completed", done); if (w[6].find('1') == std::string::npos) C.count("fp_ops_without_complete_message");
+    C.outs(fmt(res)); return;
   }
   if (w[0] == "probe" && w.size() >= 2) {
     for (size_t i = 1; i < w.size(); i++) {
@@ -211,9 +268,9 @@ static void exec(const std::string &line) {
     }
     std::string out;
     for (size_t i = 1; i < w.size(); i++) for (int b = 0; b < NBUS; b++) {
-      inject(*bus[b], num(i));
+      unsigned src = inject(*bus[b], num(i));
       if (!out.empty()) out += " | ";
-      out += deliver(b, (long)num(i));
+      out += deliver(b, (long)num(i), src, "single-frame");
     }
     C.outs(out); return;
   }
@@ -250,6 +307,49 @@ static std::vector<std::string> alphabetFor(const std::vector<unsigned long> &pg
   return a;
 }
 
+// one fast-packet transfer of `len` bytes with sequence id `seq`, damaged in the way `dmg` says
+static const char *DMG[] = {"intact", "missing-middle", "missing-last", "missing-first", "wrong-counter", "duplicate", "swapped", "wrong-seq", "restart", "truncated-then-intact"};
+static const int NDMG = 10;
+static std::string fpLine(Rng &R, int b, unsigned long pgn, unsigned src, unsigned len, unsigned seq, int dmg) {
+  unsigned nfr = len <= 6 ? 1 : 1 + (len - 6 + 6) / 7;
+  std::vector<unsigned> fr; for (unsigned k = 0; k < nfr; k++) fr.push_back((seq % 8) * 32 + k);
+  size_t mid = nfr > 2 ? 1 + (size_t)R.below(nfr - 2) : (nfr > 1 ? 1 : 0);
+  switch (dmg) {
+    case 1: if (nfr > 2) fr.erase(fr.begin() + mid); break;
+    case 2: if (nfr > 1) fr.pop_back(); break;
+    case 3: if (nfr > 1) fr.erase(fr.begin()); break;
+    case 4: if (nfr > 1) fr[mid] = (seq % 8) * 32 + ((fr[mid] & 31) + 1 + (unsigned)R.below(29)) % 32; break;
+    case 5: if (nfr > 1) fr.insert(fr.begin() + mid, fr[mid]); break;
+    case 6: if (nfr > 2) std::swap(fr[mid], fr[mid + 1 < nfr ? mid + 1 : mid - 1]); break;
+    case 7: if (nfr > 1) fr[mid] = ((seq + 1 + (unsigned)R.below(7)) % 8) * 32 + (fr[mid] & 31); break;
+    case 8: if (nfr > 1) { std::vector<unsigned> g(fr.begin(), fr.begin() + mid); for (unsigned k = 0; k < nfr; k++) g.push_back(((seq + 1) % 8) * 32 + k); fr = g; } break;
+    case 9: if (nfr > 1) { std::vector<unsigned> g(fr.begin(), fr.begin() + mid); g.insert(g.end(), fr.begin(), fr.end()); fr = g; } break;
+    default: break;
+  }
+  if (fr.size() > 40) fr.resize(40);
+  std::string l; for (size_t i = 0; i < fr.size(); i++) { if (i) l += ','; l += std::to_string(fr[i]); }
+  C.count(std::string("fp_") + DMG[dmg]);
+  return S("fp %d %lu %u %u ", b, pgn, src, len) + l + " " + fpFlags(b, pgn, src, len, fr);
+}
+
+// damaged and intact fast packets observed by the callback, all-PGN handlers and PGN handlers on both buses
+static void fpCase(Rng &R, int nops) {
+  static const unsigned long fpp[] = {129029UL, 129540UL, 130816UL};
+  exec(S("reset 0 %lu 0 %lu %lu", fpp[0], fpp[1], fpp[2]));
+  for (int h = 0; h < 5; h++) exec(S("attach %d %d", h, h == 2 ? 1 : (int)R.below(NBUS)));
+  exec("attach 0 0"); exec("cb 0 1"); exec("cb 1 1");
+  unsigned seq = (unsigned)R.below(8);
+  for (int i = 0; i < nops; i++) {
+    int b = (int)R.below(NBUS); unsigned long p = fpp[R.below(3)];
+    unsigned len = R.chance(1, 6) ? (unsigned)R.range(0, 13) : R.chance(1, 8) ? (unsigned)R.range(200, 223) : (unsigned)R.range(7, 60);
+    int dmg = R.chance(2, 5) ? 0 : (int)R.range(1, NDMG - 1);
+    exec(fpLine(R, b, p, 0x51 + (unsigned)R.below(2), len, seq++, dmg));
+    if (R.chance(1, 5)) exec(S("msg %d %lu", b, R.chance(1, 2) ? 127488UL : p == 129029UL ? 129029UL : 130306UL));
+    if (R.chance(1, 12)) exec(S("tp %d %lu", b, p));
+    if (R.chance(1, 15)) exec(S("%s %d %d", R.chance(1, 2) ? "attach" : "detach", (int)R.below(5), (int)R.below(NBUS)));
+  }
+}
+
 static void randomCase(Rng &R, int len) {
   static const unsigned long pool[] = {0, 0, 127488UL, 127488UL, 130306UL, 59904UL, 60928UL, TP_CM_PGN, TP_DT_PGN, 129029UL, 65280UL, 126992UL, 126208UL, 59392UL, 1UL << 16};
   static const unsigned long msgPool[] = {127488UL, 130306UL, 59904UL, 60928UL, TP_CM_PGN, TP_DT_PGN, 129029UL, 65280UL, 126992UL, 59392UL, 0UL, 126996UL, 61184UL, 130816UL, 1UL << 16};
@@ -266,6 +366,7 @@ static void randomCase(Rng &R, int len) {
     else if (r < 62) exec(S("destroy %d", h));
     else if (r < 66) exec(S("cb %d %d", b, (int)R.below(2)));
     else if (r < 70) { unsigned long p = pool[R.below(np)]; if (p == TP_CM_PGN || p == TP_DT_PGN) p = 129029UL; exec(S("tp %d %lu", b, p)); }
+    else if (r < 73) exec(fpLine(R, b, R.chance(1, 2) ? 129029UL : 126996UL, 0x51, (unsigned)R.range(0, 40), (unsigned)i, R.chance(1, 2) ? 0 : (int)R.range(1, NDMG - 1)));
     else if (r < 85) exec(S("msg %d %lu", b, pool[R.below(np)]));
     else exec(S("msg %d %lu", b, msgPool[R.below(NM)]));
   }
@@ -290,7 +391,11 @@ int main(int argc, char **argv) {
   // fixed scenarios named in the property
   for (const char *s : {"reset", "new 0 0", "new 1 127488", "attach 0 0", "attach 1 0", "attach 1 0", "msg 0 127488", "attach 1 1", "msg 0 127488", "msg 1 127488",
                         "destroy 1", "msg 1 127488", "new 1 127488 0", "cb 0 1", "msg 0 59904", "msg 0 60928", "msg 1 59904", "msg 1 60928", "msg 0 60416", "msg 0 60160",
-                        "tp 0 127488", "tp 1 129029", "detach 0 1", "msg 0 127488", "msg 0 0"}) exec(s);
+                        "tp 0 127488", "tp 1 129029", "detach 0 1", "msg 0 127488", "msg 0 0", "attach 0 0",
+                        "fp 0 129029 81 20 64,65,66 001", "fp 0 129029 81 20 96,98 00", "fp 0 129029 81 20 97,98 00", "fp 0 129029 81 20 128,129,129,130 0000",
+                        "fp 0 129029 81 5 160 1", "fp 1 129029 81 20 0,1,2 001"}) exec(s);
+  for (int i = 0; i < (C.thorough ? 40 : 8); i++) fpCase(R, C.thorough ? 120 : 60);
+  C.sample("fast packets: intact, missing first/middle/last frame, wrong counter, duplicate, swapped, wrong sequence id, restart mid-way, truncated then intact; ParseMessages after every frame; callback + all-PGN + PGN handlers on both buses");
   // exhaustive small scopes
   {
     std::string probe = S("probe %lu %lu %lu", a, bb, other);
